@@ -771,7 +771,18 @@ func main() {
 		s := sha256.Sum256([]byte(fmt.Sprintf("c22-long-key-%d", i)))
 		k64 = append(k64, hex.EncodeToString(s[:]))
 	}
-	small := append(append([]string{}, k2...), k64...)
+	// one key of every decoded length 1..160 bytes (an implementation may treat
+	// key||label by size classes: fixed scratch buffers, short-key memos)
+	var klen []string
+	for l := 1; l <= 160; l++ {
+		var b []byte
+		for i := 0; len(b) < l; i++ {
+			s := sha256.Sum256([]byte(fmt.Sprintf("c22-len-%d-%d", l, i)))
+			b = append(b, s[:]...)
+		}
+		klen = append(klen, hex.EncodeToString(b[:l]))
+	}
+	small := append(append(append([]string{}, k2...), k64...), klen...)
 	all := append(append([]string{}, k4...), small...)
 
 	var cfgs []config
@@ -796,7 +807,7 @@ func main() {
 	}
 	run.Rule = "one evaluation = one real GetOrderedNodes call; enumerated: every key of the key space x every node set (all subsets up to the size bound of the label universe) x every insertion permutation of the set x every single-node RemoveNode(+re-AddNode) x every single-node AddNode, per hasher and weight profile; plus, on ONE long-lived ring, every sequence of AddNode/RemoveNode/lookup operations up to depth 4 (quick) / 6 (thorough) from every start ring of <= 3 of 4 labels in every insertion order, each lookup (10 keys: four-hex, two-hex, 64-hex; n = len, 1, 2) compared with a ring built fresh from the same node set and with the reference order; a case is distinct/non-trivial when it is a different (hasher, weights, resulting order) with >= 2 nodes"
 	run.Assume("small-scope: node sets of size <= 4 (quick) / <= 5 (thorough) drawn from 4 (quick) / 6 (thorough) of 6 fixed labels (volume paths and host:port addresses); weights uniform 100, two fixed mixed profiles over {1,100,1000} and (for the rehash-forcing hasher) two all-different profiles")
-	run.Assume("keys: all 65536 four-hex keys, all 256 two-hex keys, a fixed table of 64-hex keys; only well-formed (even-length) hex keys -- Score is NaN for undecodable keys and the statement does not define an order for them")
+	run.Assume("keys: all 65536 four-hex keys, all 256 two-hex keys, a fixed table of 64-hex keys, one key of every decoded length 1..160 bytes; only well-formed (even-length) hex keys -- Score is NaN for undecodable keys and the statement does not define an order for them")
 	run.Assume("reference score: own murmur3-x64-128 (cross-checked at startup against spaolacci/murmur3 on all tail lengths), low 53 bits / 2^53, rehash of the 8 hash bytes when those bits are zero, -w/ln(f); sha256 variant: 256-bit integer rounded to 53 bits / (2^256-1); reference and implementation both use math.Log of the Go runtime")
 	run.Assume("the rehash-on-zero branch of UInt64ToFloat64 cannot be reached with murmur3 on this key space (needs 53 zero bits); it is exercised through a wrapper hasher that clears the low 53 bits of a quarter of the first-level hashes (never of the 8-byte re-hash input); that configuration uses all-different weights because zeroed hashes keep only their top 11 bits as re-hash input and equal-weight nodes would tie artificially")
 
